@@ -138,4 +138,7 @@ def gen_lines(out, tag="GEN"):
     res = []
     for m in re.finditer(r'<<"%s", "((?:[^"\\]|\\.)*)">>' % tag, out):
         res.append(json.loads(json.loads('"' + m.group(1) + '"')))
+    # TLC's workers print in whatever order they reach the states: sort, so that anything sampled from the list with a
+    # seeded generator is the same sample in every run
+    res.sort(key=lambda x: json.dumps(x, sort_keys=True))
     return res
